@@ -9,6 +9,11 @@
 //!         `spellings`: name, cwd, arg with $P = project dir, $S = its parent) in a CHILD PROCESS whose cwd is set
 //!         accordingly (`c12 diskworker`), through sylt::compile_with_reader_to_writer with sylt::read_file behind a counter
 //!   c12 diskworker <arg> <project dir> <tree files, comma separated>     one compilation + minilua run in THIS process, from its cwd
+//!   c12 runl <info.ndjson> <cases.ndjson> <trace.ndjson> <full.ndjson>
+//!         family L (SyltLayers): info: the INFO record of MC_Layers (tree); cases: REPLAY records
+//!         (n, w, files[{path, lines, tops, refs[{b, ns, name}], imports_last}]); every file is the specification's import
+//!         lines plus its definitions printed from the AST, a reference to a global of another file written as the
+//!         specification spells it; trace: (n, w, lines, class, errkind, prints, status, reads)
 //!   c12 probe <dir>      compile and run the project in <dir> (main.sy), print what happened
 //! Nothing is decided here: the import lines, the reference texts and the twins come from the specification,
 //! the expectation (prints, status, load set, "twins are rejected") is checked by TLC on the recorded trace.
@@ -233,6 +238,80 @@ fn project_of(prog: &Prog, case: &Value, twin: Option<&Value>, stub: &str) -> Pr
     Project { files, main: prog.tree[0].clone() }
 }
 
+/// Family L: the files of one configuration of SyltLayers.
+fn project_l(tree: &[String], case: &Value) -> Project {
+    let mut files = BTreeMap::new();
+    for f in tree.iter() {
+        // not part of the configuration: never imported, must never be read
+        files.insert(f.clone(), "area :: \"unused\"\nlabel :: \"unused\"\nrun :: \"unused\"\nstart :: \"unused\"\nboot :: \"unused\"\n".to_string());
+    }
+    for file in case["files"].as_array().unwrap() {
+        let path = file["path"].as_str().unwrap().to_string();
+        let lines = strs(&file["lines"]);
+        let mut opts = PrintOpts::default();
+        for r in file["refs"].as_array().unwrap() {
+            opts.naming.insert(r["b"].as_i64().unwrap(), ref_text(r["ns"].as_str().unwrap(), r["name"].as_str().unwrap()));
+        }
+        let tops: Vec<Value> = file["tops"].as_array().unwrap().clone();
+        // every global the definitions mention must be defined in this file or carry a reference text
+        let (mut vars, mut types) = (BTreeSet::new(), BTreeSet::new());
+        tops.iter().for_each(|t| collect_vars(t, &mut vars, &mut types));
+        let own: BTreeSet<i64> = tops.iter().filter(|t| t["k"] == "def").map(|t| t["b"].as_i64().unwrap()).collect();
+        for b in vars.iter().filter(|b| **b < 100) {
+            if !own.contains(b) && !opts.naming.contains_key(b) {
+                tool_error(&format!("file {} mentions global {} but the configuration has no reference text for it", path, b));
+            }
+        }
+        let body = print_program(&tops, &opts);
+        let imports = if lines.is_empty() { String::new() } else { format!("{}\n\n", lines.join("\n")) };
+        let text = if file["imports_last"].as_bool().unwrap_or(false) { format!("{}{}", body, imports) } else { format!("{}{}", imports, body) };
+        files.insert(path, text);
+    }
+    Project { files, main: tree[0].clone() }
+}
+
+fn run_case_l(tree: &[String], case: &Value) -> (Value, Value) {
+    let project = project_l(tree, case);
+    let (res, reads) = compile_opts(&project, &CompileOpts::default());
+    let (errkind, errtext) = first_error(&res);
+    let (mut prints, mut status, mut detail) = (Vec::new(), "none".to_string(), String::new());
+    if let CompileResult::Ok { lua } = &res {
+        let obs = vharness::luarun::run(lua);
+        if let vharness::luarun::Status::Unsupported { message } = &obs.status {
+            tool_error(&format!("minilua does not support something the chunk used: {}", message));
+        }
+        prints = obs.prints.clone();
+        status = obs.status.short();
+        detail = format!("{:?}", obs.status);
+    }
+    let mut read_list: Vec<Value> = tree.iter().map(|f| json!({"path": f, "n": reads.get(f).copied().unwrap_or(0)})).collect();
+    for (path, n) in reads.iter() {
+        if !tree.contains(path) {
+            read_list.push(json!({"path": path, "n": n}));
+        }
+    }
+    let lines: Vec<Value> = case["files"].as_array().unwrap().iter().map(|f| f["lines"].clone()).collect();
+    let trace = json!({
+        "n": case["n"], "w": case["w"], "lines": lines,
+        "class": res.class(), "errkind": errkind, "prints": prints, "status": status, "reads": read_list,
+    });
+    let used: BTreeMap<String, String> = case["files"]
+        .as_array()
+        .unwrap()
+        .iter()
+        .map(|f| {
+            let p = f["path"].as_str().unwrap().to_string();
+            let t = project.files[&p].clone();
+            (p, t)
+        })
+        .collect();
+    let full = json!({
+        "n": case["n"], "w": case["w"], "files": used, "class": res.class(), "error": errtext,
+        "prints": trace["prints"], "status": status, "detail": detail, "reads": trace["reads"], "twins": [],
+    });
+    (trace, full)
+}
+
 fn first_error(res: &CompileResult) -> (String, String) {
     match res {
         CompileResult::Err { errors, .. } => errors
@@ -431,6 +510,19 @@ fn main() {
             let cases: Vec<Value> = read_ndjson(Path::new(&args[3]));
             let stub = std::env::var("C12_STUB").unwrap_or_default();
             let recs = vharness::pool::par_map(&cases, |_, c| run_case(&progs, c, &stub));
+            let (t, f): (Vec<Value>, Vec<Value>) = recs.into_iter().unzip();
+            write_ndjson(Path::new(&args[4]), &t);
+            write_ndjson(Path::new(&args[5]), &f);
+            println!("{}", t.len());
+        }
+        "runl" => {
+            if args.len() < 6 {
+                tool_error("usage: c12 runl <info> <cases> <trace> <full>");
+            }
+            let info: Vec<Value> = read_ndjson(Path::new(&args[2]));
+            let tree: Vec<String> = strs(&info.first().unwrap_or_else(|| tool_error("empty info file"))["tree"]);
+            let cases: Vec<Value> = read_ndjson(Path::new(&args[3]));
+            let recs = vharness::pool::par_map(&cases, |_, c| run_case_l(&tree, c));
             let (t, f): (Vec<Value>, Vec<Value>) = recs.into_iter().unzip();
             write_ndjson(Path::new(&args[4]), &t);
             write_ndjson(Path::new(&args[5]), &f);
